@@ -28,6 +28,21 @@ def run(tier: str, rep: Report, prefix=PREFIX, pid=PID, keyf=None):
     finally:
         pool.close()
     fails = df.validate(rep, files)
+    def corrupt(e):
+        ins = e.get("lib", {}).get("instrs") or []
+        if e.get("lib", {}).get("exc") or not ins or ins[0][5] < 0:
+            return None
+        if prefix[0] == "P13.":
+            e["lib"]["block_starts"] = e["lib"]["block_starts"] + [len(ins)]
+            e["lib"]["block_lens"] = e["lib"]["block_lens"] + [0]
+            return e
+        if prefix[0] == "P09.":
+            e["lib"]["additional"] = e["lib"]["additional"] + [["N", 999999, -1]]
+            return e
+        ins[0][5] += 1
+        return e
+
+    df.negative_control(rep, files, "Trace_Decode", corrupt, ("P02.lines",) if prefix[0] == "P02." else prefix)
     df.classify(rep, fails, prefix, pid, keyf or keyfn)
     rep.cov["evaluations"] += rep.cov["recorded"]["events"]
     nt = sum(1 for v in gen.values() for c in v if any(u[0] in ("JABS", "JREL", "EXT") for u in c["units"]))
